@@ -5,8 +5,8 @@ import runner_common
 def run(c):
     return runner_common.run(c, "C05", [
         "termination = deadlock freedom (C05_deadlock_free, C05_quiescent: the only states without an enabled step are "
-        "the finished ones) + weak fairness of the Go scheduler; the measure-decrease statement C05_progress is not "
-        "proved (see level_note)",
+        "the finished ones) + C05_progress (every step except a read of the cycle walk decreases a measure) + weak "
+        "fairness of the Go scheduler, which is an assumption: infinite fair executions are not formalised",
         "graphs are finite: the labels reachable from the requested target form a finite set"])
 
 
